@@ -7,6 +7,9 @@ import PyTealV.Util
 import PyTealV.Cmd.C17
 import PyTealV.Cmd.C10
 import PyTealV.Cmd.C13
+import PyTealV.Cmd.C12
+import PyTealV.Cmd.C15
+import PyTealV.Cmd.C02Spill
 namespace PyTealV.Cmd
 
 def extraCommands : List (String × (List String → String)) := [
@@ -18,7 +21,19 @@ def extraCommands : List (String × (List String → String)) := [
   ("c13-escape", C13.escape), ("c13-bytes", C13.bytes), ("c13-denote", C13.denote),
   ("c13-int", C13.int), ("c13-addr", C13.addr), ("c13-method", C13.method),
   ("c13-valid", C13.valid), ("c13-pad32", C13.pad32), ("c13-rfc", C13.rfc),
-  ("c13-parseline", C13.parseline)
+  ("c13-parseline", C13.parseline),
+  ("c12-ccb", C12.ccb),
+  ("c12-text", C12.text),
+  ("c12-value", C12.value),
+  ("c12-sites", C12.sites),
+  ("c12-tv", C12.tv),
+  ("c15-vlq-enc", C15.vlqEnc), ("c15-vlq-dec", C15.vlqDec),
+  ("c15-r3-enc", C15.r3Enc), ("c15-r3-dec", C15.r3Dec), ("c15-r3-wf", C15.r3Wf),
+  ("c15-strip", C15.strip), ("c15-tokens", C15.tokens), ("c15-annotate", C15.annotateCmd),
+  ("c15-line", C15.lineCmd), ("c15-internal", C15.internalCmd), ("c15-keep", C15.keepCmd),
+  ("c02-spill", C02Spill.spill),
+  ("c02-recpoints", C02Spill.recpoints),
+  ("c02-gsearch", C02Spill.gsearch)
 ]
 
 def dispatch (cmd : String) (args : List String) : Option String :=
